@@ -173,6 +173,18 @@ type Action struct {
 
 	// inline API
 	InlineID int `json:"inline_id,omitempty"`
+
+	// burst: several clients publish at the same time (all packets are handed to the broker before it is allowed to
+	// settle, so their handlers really run concurrently)
+	Burst []BurstItem `json:"burst,omitempty"`
+}
+
+// BurstItem is one client's share of a burst.
+type BurstItem struct {
+	Client int    `json:"client"`
+	Topic  string `json:"topic"`
+	QoS    byte   `json:"qos"`
+	Count  int    `json:"count"`
 }
 
 // Case is a whole generated history.
@@ -580,6 +592,50 @@ func (r *Run) Do(a Action) *Step {
 		r.Tags[s.Tag] = &TagInfo{Tag: s.Tag, Step: s.I, Client: -1, CID: "inline", Peer: -1, Topic: a.Topic, QoS: a.QoS, Retain: a.Retain, Empty: a.Empty}
 		if err := r.B.S.Publish(a.Topic, payload, a.Retain, a.QoS); err != nil {
 			s.Err = err.Error()
+		}
+	case "burst":
+		// build every packet first, then deliver them all; tags are allocated per message
+		type out struct {
+			p  *Peer
+			pk *refmqtt.Packet
+		}
+		var outs []out
+		for _, b := range a.Burst {
+			ba := Action{Client: b.Client}
+			p := r.peerFor(&ba)
+			if p == nil {
+				continue
+			}
+			for i := 0; i < b.Count; i++ {
+				r.tagSeq++
+				tag := r.tagSeq
+				pk := &refmqtt.Packet{Type: refmqtt.PUBLISH, QoS: b.QoS, Topic: b.Topic, Payload: TagPayload(tag), Version: p.Version}
+				if b.QoS > 0 {
+					pk.PacketID = p.pid()
+					p.Out = append(p.Out, &OutMsg{PID: pk.PacketID, Tag: tag, QoS: b.QoS, Pkt: pk})
+				}
+				r.Tags[tag] = &TagInfo{Tag: tag, Step: s.I, Client: p.Client, CID: p.CID, Peer: p.ID, Topic: b.Topic, QoS: b.QoS, Version: p.Version}
+				outs = append(outs, out{p, pk})
+			}
+		}
+		// interleave the clients' packets
+		for i := 0; ; i++ {
+			any := false
+			seen := map[int]int{}
+			for _, o := range outs {
+				k := seen[o.p.ID]
+				seen[o.p.ID]++
+				if k == i {
+					o.p.Link.Send(refmqtt.Encode(o.pk, refmqtt.Style{}))
+					any = true
+				}
+			}
+			if !any {
+				break
+			}
+		}
+		if len(outs) == 0 {
+			s.Skipped = true
 		}
 	case "drain":
 		// from now on the connection acknowledges everything promptly, starting with what is outstanding
@@ -1087,6 +1143,8 @@ func (a Action) String() string {
 		return fmt.Sprintf("tick %s %+d", a.Tick, a.Offset)
 	case "pidcursor":
 		return fmt.Sprintf("pidcursor %s %d", a.ClientIDStr(), a.Offset)
+	case "burst":
+		return fmt.Sprintf("burst %+v", a.Burst)
 	case "inline-sub", "inline-unsub":
 		return fmt.Sprintf("%s id=%d %s", a.Kind, a.InlineID, a.Filters[0].Filter)
 	case "inline-pub":
